@@ -12,8 +12,25 @@ import BitstringModel.Gen.Src
 namespace BM.C07.Src
 open BM BM.C07
 
+/-- Shape-agnostic closing tactic for the ties below (the same script must survive harmless rewrites of the Python
+    source — renamed locals, re-associated / commuted sums, conditional expressions ↔ if-statements, `not n` ↔ `n == 0`,
+    `a <= b` ↔ `not a > b`, guards merged with `or` / swapped with the condition negated …): turn the Boolean tests into
+    propositions, split every `if` / `match` on both sides, then close every leaf by linear arithmetic, by
+    simplification with the case hypotheses, or by `grind`. -/
+macro "src_auto" : tactic => `(tactic| (
+  try simp only [Int.min_def, Nat.min_def, Int.max_def, Nat.max_def]
+  try simp only [decide_eq_true_eq, decide_eq_false_iff_not, Bool.not_eq_true', Bool.not_eq_false', Bool.and_eq_true,
+    Bool.or_eq_true, Bool.and_eq_false_imp, Bool.or_eq_false_iff, ne_eq, Decidable.not_not]
+  repeat' split
+  all_goals (first
+    | omega
+    | (simp_all [Except.map, Except.bind] <;> first | omega | grind)
+    | grind [Except.map, Except.bind])))
+
 /-- The final guard of `_validate_slice` (`if not 0 <= start <= end <= len(self): raise ValueError`) for bounds that
-    are already normalised: the translated Boolean test against the model's propositional one. -/
+    are already normalised: the Boolean test in the form the translator emits for the chained comparison against the
+    model's propositional one.  A standalone fact (it mentions no translated function, so it cannot be affected by a
+    rewrite of the source); the tie below no longer goes through it. -/
 theorem validate_core (n s e : Int) :
     (if (!(decide ((0 : Int) ≤ s) && decide (s ≤ e) && decide (e ≤ n))) then (.error .value : Except Err (Int × Int))
       else .ok (s, e)).map (fun p => (p.1.toNat, p.2.toNat))
@@ -31,7 +48,7 @@ theorem validate_core (n s e : Int) :
 theorem validate_slice_eq (n : Nat) (a b : Option Int) :
     (Gen.Src.validate_slice (n : Int) a b).map (fun p => (p.1.toNat, p.2.toNat)) = validateSlice n a b := by
   unfold Gen.Src.validate_slice validateSlice
-  cases a <;> cases b <;> simp only [decide_eq_true_eq] <;> exact validate_core _ _ _
+  cases a <;> cases b <;> src_auto
 
 /-- Non-vacuity: negative bounds are taken from the end, … -/
 example : (Gen.Src.validate_slice 10 (some (-7)) (some (-2))).map (fun p => (p.1.toNat, p.2.toNat)) = .ok (3, 8) := by
